@@ -826,12 +826,21 @@ func runC18TCPAllocClose(t *testing.T, rng *rand.Rand, rec *sim.Rec, tier string
 		}
 		accepted := make(chan error, 1)
 		timeouts := make(chan struct{}, 16)
+		var closing atomic.Bool
 		go func() {
 			for {
 				c, err := alloc.AcceptTCP()
 				var ne net.Error
 				if err != nil && errors.As(err, &ne) && ne.Timeout() {
 					timeouts <- struct{}{} // a deadline passed: the application accepts again
+
+					continue
+				}
+				if err != nil && !closing.Load() {
+					// (not a timeout, and nobody has closed the allocation: a ConnectionAttempt that the
+					// server sent for the previous, just deleted allocation of this 5-tuple reached the
+					// client late and could not be bound - an error for that one connection only)
+					rec.Ev("accept-errors-for-stale-connection-attempts")
 
 					continue
 				}
@@ -849,8 +858,9 @@ func runC18TCPAllocClose(t *testing.T, rng *rand.Rand, rec *sim.Rec, tier string
 			_ = alloc.SetDeadline(time.Now().Add(d))
 			select {
 			case <-timeouts:
-			case <-time.After(3 * time.Second):
-				rec.Violate("stress-wedged", fmt.Sprintf("tcp-alloc-accept-deadline/%d", k), "Accept on the client's TCP allocation did not return within 3 s of a deadline set to now+%v from another goroutine (deadline number %d of this allocation)", d, k+1)
+			case <-time.After(20 * time.Second):
+				// (generous: this case runs in real time, possibly on a loaded machine)
+				rec.Violate("stress-wedged", fmt.Sprintf("tcp-alloc-accept-deadline/%d", k), "Accept on the client's TCP allocation did not return within 20 s of a deadline set to now+%v from another goroutine (deadline number %d of this allocation)", d, k+1)
 
 				return
 			}
@@ -858,6 +868,7 @@ func runC18TCPAllocClose(t *testing.T, rng *rand.Rand, rec *sim.Rec, tier string
 		}
 		_ = alloc.SetDeadline(time.Time{})
 		time.Sleep(time.Duration(1+rng.Intn(8)) * time.Millisecond)
+		closing.Store(true)
 		_ = alloc.Close()
 		time.Sleep(3 * time.Millisecond)
 		close(stop)
